@@ -597,4 +597,426 @@ theorem threeWay_cutG (S : Schema) {L' O : List Node} {f : Nat} (h : LeftRel L' 
           simp [threeWay.rightJoinCheck, compatibleContent_self, hlr, hre,
             close_ok_of_valid S tyL aL mL k hvc, hrj]
 
+/-! ### levels above the old slice: `threeWay` with `extra ≠ 0` -/
+
+theorem fnorm_append_right {pre rest : List Node} (h : fnorm (pre ++ rest) = true) :
+    fnorm rest = true := by
+  simp only [fnorm, Bool.and_eq_true, fnormKids_append, chainOk_append] at h ⊢
+  exact ⟨h.1.2, h.2.1.2⟩
+
+theorem fnormKids_append_left {pre rest : List Node} (h : fnorm (pre ++ rest) = true) :
+    fnormKids pre = true := by
+  simp only [fnorm, Bool.and_eq_true, fnormKids_append] at h
+  exact h.1.1
+
+theorem fcutLoop_append_pre : ∀ (pre l : List Node) (f t : Nat), fnormKids pre = true →
+    fcutLoop (pre ++ l) (fsize pre + f) (fsize pre + t) = fcutLoop l f t
+  | [], l, f, t, _ => by simp
+  | n :: pre, l, f, t, hn => by
+    simp only [fnormKids_cons, Bool.and_eq_true] at hn
+    have hpos := Node.size_pos_of_norm n hn.1
+    rw [List.cons_append, fcutLoop_skip _ _ _ _ (by simp; omega) (by simp; omega)]
+    have e1 : fsize (n :: pre) + f - n.size = fsize pre + f := by simp; omega
+    have e2 : fsize (n :: pre) + t - n.size = fsize pre + t := by simp; omega
+    rw [e1, e2]
+    exact fcutLoop_append_pre pre l f t hn.2
+
+/-- the slice taken at this level, seen from the unscanned rest of the level -/
+theorem sliceHere_rest {level pre rest : List Node} {f0 t0 f t : Nat} {old : Slice}
+    (hl : level = pre ++ rest) (hf0 : f0 = fsize pre + f) (ht0 : t0 = fsize pre + t)
+    (hft : f < t) (ht : t ≤ fsize rest) (hn : fnorm level = true)
+    (h : sliceHere level f0 t0 = .ok old) :
+    fcutLoop rest f t = .ok old.content ∧ old.openStart = depthAt rest f ∧
+      old.openEnd = depthAt rest t := by
+  obtain ⟨c, hc, rfl⟩ := sliceHere_inv h
+  subst hl
+  have hpre := fnormKids_append_left hn
+  rw [fcut_eq_loop (fnormKids_of_fnorm hn) (by omega) (by rw [fsize_append]; omega) (by omega),
+    hf0, ht0, fcutLoop_append_pre pre rest f t hpre] at hc
+  exact ⟨hc, by simp only [hf0]; exact depthAt_append_pre _ _ _,
+    by simp only [ht0]; exact depthAt_append_pre _ _ _⟩
+
+theorem checkKids_append_right {S : Schema} {pre rest : List Node}
+    (h : S.checkKids (pre ++ rest) = true) : S.checkKids rest = true := by
+  rw [checkKids_append] at h
+  simp only [Bool.and_eq_true] at h
+  exact h.2
+
+theorem threeWay_rebuildE (S : Schema) {L M R O X : List Node} {f e a b t : Nat}
+    (h : threeWay S L f e M a b R t = .ok X) (hL : fnormKids L = true) (hM : fnormKids M = true)
+    (hR : fnormKids R = true) (hO : fnorm O = true) (ha : a ≤ spineL M) (hb : b ≤ spineR M)
+    (htk : (ftoks L).take f ++ midToks M a b ++ (ftoks R).drop t = ftoks O) :
+    fromArray X = O := by
+  apply ftoks_inj _ _ (fromArray_norm _ (threeWay_norm S _ _ _ _ _ _ _ _ _ hL hM hR h)) hO
+  rw [fromArray_toks, threeWay_toks S _ _ _ _ _ _ _ _ _ ha hb h, htk]
+
+theorem threeWay_extraG (S : Schema) (old : Slice) {rest' rest : List Node} {f : Nat}
+    (h : LeftRel rest' rest f) :
+    ∀ (pre level : List Node) (f0 t0 t : Nat) (R' : List Node) (t' e : Nat),
+      level = pre ++ rest → f0 = fsize pre + f → t0 = fsize pre + t → f < t → t ≤ fsize rest →
+      sliceScan level f0 t0 rest f t = .ok old → RightRel S R' t' rest t →
+      old.openStart + e = depthAt rest f →
+      fnormKids rest' = true → fnormKids R' = true →
+      S.checkKids level = true → fnorm level = true →
+      ∃ X, threeWay S rest' f e old.content old.openStart old.openEnd R' t' = .ok X := by
+  induction h with
+  | @flat L' O f hp' hp hd' hd ha htk =>
+    intro pre level f0 t0 t R' t' e hl hf0 ht0 hft ht hsc hrel he hn' hR hv hn
+    rw [sliceScan_flat level f0 t0 O f t hd] at hsc
+    obtain ⟨hc, ho1, ho2⟩ := sliceHere_rest hl hf0 ht0 hft ht hn hsc
+    have he0 : e = 0 := by omega
+    subst hl
+    rw [he0, ho1, ho2]
+    exact threeWay_cutG S (.flat hp' hp hd' hd ha htk) t old.content R' t' hft ht hc hrel hn' hR
+      (checkKids_append_right hv) (fnorm_append_right hn)
+  | @skip n L' O f h0 hle _ ih =>
+    intro pre level f0 t0 t R' t' e hl hf0 ht0 hft ht hsc hrel he hn' hR hv hn
+    have ht00 : t ≠ 0 := by omega
+    simp only [fnormKids_cons, Bool.and_eq_true] at hn'
+    simp only [fsize_cons] at ht
+    rw [sliceScan_cons, if_neg h0, if_pos hle] at hsc
+    rw [depthAt_skip n O f hle] at he
+    obtain ⟨X, hX⟩ := ih (pre ++ [n]) level f0 t0 (t - n.size) R' t' e (by simp [hl])
+      (by rw [fsize_append]; simp; omega) (by rw [fsize_append]; simp; omega) (by omega) (by omega)
+      hsc (hrel.congr_right (splitRight_skip n O t ht00 (by omega))) he hn'.2 hR hv hn
+    unfold threeWay
+    rw [if_neg h0, if_pos hle, hX]
+    exact ⟨_, rfl⟩
+  | @elem tyL aL mL k' k L' O f h0 hlt' hlt hrelk ih =>
+    intro pre level f0 t0 t R' t' e hl hf0 ht0 hft ht hsc hrel he hn' hR hv hn
+    have ht00 : t ≠ 0 := by omega
+    rw [sliceScan_cons, if_neg h0, if_neg (by simp; omega)] at hsc
+    simp only [Node.size_elem] at hsc
+    by_cases hin : t < 2 + fsize k
+    · -- the old slice lies deeper: merge the two sides at this level
+      rw [if_pos hin] at hsc
+      subst hl
+      obtain ⟨hvc, hvk, hnk⟩ := child_facts hv hn
+      simp only [fnormKids_cons, Node.norm_elem, Bool.and_eq_true] at hn'
+      have hnk' := fnormKids_of_fnorm hn'.1
+      have hspec := sliceScan_spec k k (f - 1) (t - 1) (f - 1) (t - 1) [] old (by simp) (by simp)
+        (by simp) (by omega) (by omega) hsc
+      obtain ⟨sh, hsh1, _, _, _⟩ := hspec.opens
+      obtain ⟨hon, howf⟩ := hspec.norm hnk
+      simp only [Slice.wf, Bool.and_eq_true, decide_eq_true_eq] at howf
+      rw [depthAt_elem_cons _ _ _ _ _ _ (by omega) hlt] at he
+      obtain ⟨tyR, aR, mR, kR, iR, hsr, hcomp, hrel'⟩ :=
+        hrel.deep_inv (splitRight_elem tyL aL mL k O t ht00 hin)
+      have hkR : fnormKids kR = true := by
+        have := splitRight_norm _ _ _ hR hsr
+        simp only [RSplit.normK, Node.norm_elem, Bool.and_eq_true] at this
+        exact fnormKids_of_fnorm this.1
+      obtain ⟨X, hX⟩ := ih [] k (f - 1) (t - 1) (t - 1) kR iR (e - 1) (by simp) (by simp) (by simp)
+        (by omega) (by omega) hsc hrel' (by omega) hnk' hkR hvk hnk
+      have hre : fromArray X = k :=
+        threeWay_rebuildE S hX hnk' (fnormKids_of_fnorm hon) hkR hnk howf.1 howf.2
+          (by
+            have := hspec.toks
+            simp only [Slice.toks] at this
+            simp only [midToks]
+            rw [this, hrelk.toks, hrel'.toks,
+              show t - 1 - (f - 1) = t - 1 - (f - 1) from rfl]
+            exact splice_mid _ _ _ (by omega) (by rw [ftoks_length]; omega))
+      have he0 : e ≠ 0 := by omega
+      unfold threeWay
+      rw [if_neg h0, if_neg (by simp; omega)]
+      simp only [hsr]
+      simp [he0, hcomp, hX, hre, close_ok_of_valid S tyL aL mL k hvc]
+    · -- the old slice was taken at this level
+      rw [if_neg hin] at hsc
+      obtain ⟨hc, ho1, ho2⟩ := sliceHere_rest hl hf0 ht0 hft ht hn hsc
+      have he0 : e = 0 := by omega
+      subst hl
+      rw [he0, ho1, ho2]
+      exact threeWay_cutG S (.elem h0 hlt' hlt hrelk) t old.content R' t' hft ht hc hrel hn' hR
+        (checkKids_append_right hv) (fnorm_append_right hn)
+
+/-! ### deletion: the old slice is empty, the inverse is a two-way join -/
+
+theorem twoWay_sameG (S : Schema) {L' O : List Node} {f : Nat} (h : LeftRel L' O f) :
+    ∀ (R' : List Node) (t' : Nat), RightRel S R' t' O f → fnormKids L' = true →
+      fnormKids R' = true → S.checkKids O = true → fnorm O = true →
+      ∃ X, twoWay S L' f R' t' = .ok X := by
+  induction h with
+  | @flat L' O f hp' hp hd' hd ha _ =>
+    intro R' t' hrel _ _ _ _
+    obtain ⟨r, hr, _⟩ := hrel.flat_of_depth hd
+    exact twoWay_flat S L' f R' t' hp' ha hd' ⟨r, hr⟩
+  | @skip n L' O f h0 hle _ ih =>
+    intro R' t' hrel hn' hR hv hn
+    obtain ⟨_, hnns⟩ := fnorm_cons hn
+    have hv' : S.checkKids O = true := by
+      simp only [checkKids_cons, Bool.and_eq_true] at hv; exact hv.2
+    simp only [fnormKids_cons, Bool.and_eq_true] at hn'
+    obtain ⟨r, hr⟩ := ih R' t' (hrel.congr_right (splitRight_skip n O f h0 hle)) hn'.2 hR hv' hnns
+    unfold twoWay
+    rw [if_neg h0, if_pos hle, hr]
+    exact ⟨_, rfl⟩
+  | @elem ty a m k' k L' O f h0 hlt' hlt hrelk ih =>
+    intro R' t' hrel hn' hR hv hn
+    obtain ⟨hvc, hvk, hnk, _, _⟩ := elem_facts hv (fnormKids_of_fnorm hn)
+    simp only [fnormKids_cons, Node.norm_elem, Bool.and_eq_true] at hn'
+    have hnk' := fnormKids_of_fnorm hn'.1
+    obtain ⟨tyR, aR, mR, kR, iR, hsr, hcomp, hrel'⟩ :=
+      hrel.deep_inv (splitRight_elem ty a m k O f h0 hlt)
+    have hkR : fnormKids kR = true := by
+      have := splitRight_norm _ _ _ hR hsr
+      simp only [RSplit.normK, Node.norm_elem, Bool.and_eq_true] at this
+      exact fnormKids_of_fnorm this.1
+    obtain ⟨r, hr⟩ := ih kR iR hrel' hnk' hkR hvk hnk
+    have hre : fromArray r = k :=
+      twoWay_rebuild S hr hnk' hkR hnk
+        (by rw [hrelk.toks, hrel'.toks]; exact List.take_append_drop _ _)
+    unfold twoWay
+    rw [if_neg h0, if_neg (by simp; omega)]
+    simp only [hsr, hcomp, if_true, hr, hre, close_ok_of_valid S ty a m k hvc]
+    exact ⟨_, rfl⟩
+
+theorem atLevel_undo_emptyG (S : Schema) (ty : TypeId) (level' level : List Node) (f0 t0' e : Nat)
+    (hL : LeftRel level' level f0) (hR : RightRel S level' t0' level f0)
+    (hn' : fnorm level' = true) (hvc : S.validContent ty level = true)
+    (hv : S.checkKids level = true) (hn : fnorm level = true) :
+    atLevel S Slice.empty ty level' f0 t0' e = .ok level := by
+  have hk' := fnormKids_of_fnorm hn'
+  obtain ⟨X, hX⟩ := twoWay_sameG S hL level' t0' hR hk' hk' hv hn
+  have hre : fromArray X = level :=
+    twoWay_rebuild S hX hk' hk' hn (by rw [hL.toks, hR.toks]; exact List.take_append_drop _ _)
+  unfold atLevel
+  simp only [Slice.empty, fsize_nil, if_true, hX, Except.map, hre, hvc]
+
+/-! ### `atLevel` of the inverse: the old slice goes back in -/
+
+theorem atLevel_undoG (S : Schema) (old : Slice) (ty : TypeId) (level' level : List Node)
+    (f0 t0 t0' e : Nat) (hft : f0 < t0) (ht : t0 ≤ fsize level)
+    (hsc : sliceScan level f0 t0 level f0 t0 = .ok old)
+    (he : old.openStart + e = depthAt level f0)
+    (hL : LeftRel level' level f0) (hR : RightRel S level' t0' level t0)
+    (hn' : fnorm level' = true) (hvc : S.validContent ty level = true)
+    (hv : S.checkKids level = true) (hn : fnorm level = true) :
+    atLevel S old ty level' f0 t0' e = .ok level := by
+  have hk' := fnormKids_of_fnorm hn'
+  have hspec := sliceScan_spec level level f0 t0 f0 t0 [] old (by simp) (by simp) (by simp) hft ht hsc
+  obtain ⟨hon, howf⟩ := hspec.norm hn
+  have hwf := howf
+  simp only [Slice.wf, Bool.and_eq_true, decide_eq_true_eq] at howf
+  have htoks := hspec.toks
+  have hsz : fsize old.content ≠ 0 := by
+    have := hspec.size
+    simp only [Slice.size] at this
+    omega
+  have hfin : (ftoks level').take f0 ++ old.toks ++ (ftoks level').drop t0' = ftoks level := by
+    rw [htoks, hL.toks, hR.toks]
+    exact splice_mid _ _ _ (by omega) (by rw [ftoks_length]; exact ht)
+  unfold atLevel
+  simp only []
+  rw [if_neg hsz]
+  by_cases hcl : old.openStart = 0 ∧ old.openEnd = 0 ∧ depthAt level' f0 = 0 ∧ depthAt level' t0' = 0
+  · obtain ⟨ho0, ho1, hdf, hdt⟩ := hcl
+    obtain ⟨l, hl⟩ := fcut_total level' 0 f0 (by omega) hL.le.1 (alignedAt_zero _) hL.aligned hn'
+    obtain ⟨r, hr⟩ := fcut_total level' t0' (fsize level') hR.le.1 (Nat.le_refl _) hR.aligned.1
+      (alignedAt_fsize _) hn'
+    have hX : fappend (fappend l old.content) r = level := by
+      apply ftoks_inj _ _ (fappend_norm _ _ (fappend_norm _ _ (fcut_norm _ _ _ _ hn' hl) hon)
+        (fcut_norm _ _ _ _ hn' hr)) hn
+      rw [fappend_toks, fappend_toks, fcut_prefix_toks hl hL.le.1 hdf, fcut_suffix_toks hr hdt,
+        ← closed_toks ho0 ho1]
+      exact hfin
+    simp only [ho0, ho1, hdf, hdt, decide_true, Bool.and_self, if_true, hl, hr, hX, hvc]
+  · have hcond : ¬ ((decide (old.openStart = 0) && decide (old.openEnd = 0) &&
+        decide (depthAt level' f0 = 0) && decide (depthAt level' t0' = 0)) = true) := by
+      simp only [Bool.and_eq_true, decide_eq_true_eq]
+      intro h; exact hcl ⟨h.1.1.1, h.1.1.2, h.1.2, h.2⟩
+    rw [if_neg hcond]
+    obtain ⟨X, hX⟩ := threeWay_extraG S old hL [] level f0 t0 t0 level' t0' e (by simp) (by simp)
+      (by simp) hft ht hsc hR he hk' hk' hv hn
+    have hre : fromArray X = level :=
+      threeWay_rebuildE S hX hk' (fnormKids_of_fnorm hon) hk' hn howf.1 howf.2 hfin
+    simp only [hX, Except.map, hre, hvc, if_true]
+
+/-! ### `outer` of the inverse -/
+
+theorem fnorm_child {pre ns : List Node} {ty : TypeId} {a : Attrs} {m : Marks} {kids : List Node}
+    (hn : fnorm (pre ++ .elem ty a m kids :: ns) = true) : fnorm kids = true :=
+  fnorm_elem_kids (fnorm_append_right hn)
+
+theorem outer_undoG (S : Schema) (old : Slice) {rest' rest : List Node} {f : Nat}
+    (h : LeftRel rest' rest f) :
+    ∀ (ty : TypeId) (pre level' level : List Node) (f0 t0 t0' t t' idx e : Nat),
+      level' = pre ++ rest' → level = pre ++ rest → idx = pre.length → f0 = fsize pre + f →
+      t0 = fsize pre + t → t0' = fsize pre + t' → f < t → t ≤ fsize rest → f ≤ t' →
+      sliceScan level f0 t0 rest f t = .ok old → sliceScan level f0 t0 level f0 t0 = .ok old →
+      RightRel S rest' t' rest t → old.openStart + e = depthAt rest f →
+      fnorm level' = true → S.validContent ty level = true → S.checkKids level = true →
+      fnorm level = true →
+      ∃ X, outer S old ty level' f0 t0' idx rest' f t' e = .ok X := by
+  induction h with
+  | @flat L' O f hp' hp hd' hd ha htk =>
+    intro ty pre level' level f0 t0 t0' t t' idx e hl' hl hi hf0 ht0 ht0' hft ht hft' hsc hsc0 hrel he
+      hn' hvc hv hn
+    have hpre : fnormKids pre = true := by rw [hl] at hn; exact fnormKids_append_left hn
+    rw [outer_flat S old ty level' f0 t0' e L' idx f t' hd']
+    have hL := (LeftRel.flat hp' hp hd' hd ha htk).append_pre pre hpre
+    have hR := hrel.append_pre pre hpre
+    rw [← hl', ← hl, ← hf0] at hL
+    rw [← hl', ← hl, ← ht0, ← ht0'] at hR
+    exact ⟨_, atLevel_undoG S old ty level' level f0 t0 t0' e (by omega)
+      (by rw [hl, fsize_append]; omega) hsc0 (by rw [hl, hf0, depthAt_append_pre]; exact he)
+      hL hR hn' hvc hv hn⟩
+  | @skip n L' O f h0 hle _ ih =>
+    intro ty pre level' level f0 t0 t0' t t' idx e hl' hl hi hf0 ht0 ht0' hft ht hft' hsc hsc0 hrel he
+      hn' hvc hv hn
+    have ht00 : t ≠ 0 := by omega
+    simp only [fsize_cons] at ht
+    rw [sliceScan_cons, if_neg h0, if_pos hle] at hsc
+    rw [depthAt_skip n O f hle] at he
+    have hrel2 := (hrel.congr_right (splitRight_skip n O t ht00 (by omega))).congr_left
+      (splitRight_skip n L' t' (by omega) (by omega))
+    obtain ⟨X, hX⟩ := ih ty (pre ++ [n]) level' level f0 t0 t0' (t - n.size) (t' - n.size) (idx + 1) e
+      (by simp [hl']) (by simp [hl]) (by simp [hi]) (by rw [fsize_append]; simp; omega)
+      (by rw [fsize_append]; simp; omega) (by rw [fsize_append]; simp; omega) (by omega) (by omega)
+      (by omega) hsc hsc0 hrel2 he hn' hvc hv hn
+    unfold outer
+    rw [if_neg h0, if_pos hle]
+    exact ⟨X, hX⟩
+  | @elem tyL aL mL k' k L' O f h0 hlt' hlt hrelk ih =>
+    intro ty pre level' level f0 t0 t0' t t' idx e hl' hl hi hf0 ht0 ht0' hft ht hft' hsc hsc0 hrel he
+      hn' hvc hv hn
+    have ht00 : t ≠ 0 := by omega
+    have hpre : fnormKids pre = true := by rw [hl] at hn; exact fnormKids_append_left hn
+    -- the relations at the whole level, for the cases in which the scan stops here
+    have hL := (LeftRel.elem (ty := tyL) (a := aL) (m := mL) (L' := L') (O := O) h0 hlt' hlt hrelk).append_pre
+      pre hpre
+    have hR := hrel.append_pre pre hpre
+    rw [← hl', ← hl, ← hf0] at hL
+    rw [← hl', ← hl, ← ht0, ← ht0'] at hR
+    have here : ∃ X, atLevel S old ty level' f0 t0' e = .ok X :=
+      ⟨_, atLevel_undoG S old ty level' level f0 t0 t0' e (by omega)
+        (by rw [hl, fsize_append]; omega) hsc0 (by rw [hl, hf0, depthAt_append_pre]; exact he)
+        hL hR hn' hvc hv hn⟩
+    unfold outer
+    rw [if_neg h0, if_neg (by simp; omega)]
+    simp only [Node.size_elem]
+    by_cases hcond : (decide (e ≠ 0) && decide (t' < 2 + fsize k')) = true
+    · rw [if_pos hcond]
+      simp only [Bool.and_eq_true, decide_eq_true_eq] at hcond
+      obtain ⟨he0, hin'⟩ := hcond
+      -- the inverse descends; so did the scan of the old slice (otherwise `e = 0`)
+      rw [sliceScan_cons, if_neg h0, if_neg (by simp; omega)] at hsc
+      simp only [Node.size_elem] at hsc
+      by_cases hin : t < 2 + fsize k
+      · rw [if_pos hin] at hsc
+        subst hl; subst hl'
+        obtain ⟨hvc', hvk, hnk⟩ := child_facts hv hn
+        have hnk' := fnorm_child hn'
+        obtain ⟨tyR, aR, mR, kR, iR, hsr, _, hrel'⟩ :=
+          hrel.deep_inv (splitRight_elem tyL aL mL k O t ht00 hin)
+        rw [splitRight_elem tyL aL mL k' L' t' (by omega) hin'] at hsr
+        simp at hsr
+        obtain ⟨⟨rfl, rfl, rfl, rfl⟩, rfl, _⟩ := hsr
+        rw [depthAt_elem_cons _ _ _ _ _ _ (by omega) hlt] at he
+        obtain ⟨X, hX⟩ := ih tyL [] k' k (f - 1) (t - 1) (t' - 1) (t - 1) (t' - 1) 0 (e - 1) (by simp)
+          (by simp) (by simp) (by simp) (by simp) (by simp) (by omega) (by omega) (by omega)
+          hsc hsc hrel' (by omega) hnk' hvc' hvk hnk
+        rw [hX]
+        exact ⟨_, rfl⟩
+      · rw [if_neg hin] at hsc
+        obtain ⟨_, ho1, _⟩ := sliceHere_rest hl hf0 ht0 hft ht hn hsc
+        omega
+    · rw [if_neg hcond]
+      exact here
+
+theorem outer_undo_emptyG (S : Schema) {rest' rest : List Node} {f : Nat}
+    (h : LeftRel rest' rest f) :
+    ∀ (ty : TypeId) (pre level' level : List Node) (f0 t0' t' idx e : Nat),
+      level' = pre ++ rest' → level = pre ++ rest → idx = pre.length → f0 = fsize pre + f →
+      t0' = fsize pre + t' → f ≤ t' →
+      RightRel S rest' t' rest f →
+      fnorm level' = true → S.validContent ty level = true → S.checkKids level = true →
+      fnorm level = true →
+      ∃ X, outer S Slice.empty ty level' f0 t0' idx rest' f t' e = .ok X := by
+  induction h with
+  | @flat L' O f hp' hp hd' hd ha htk =>
+    intro ty pre level' level f0 t0' t' idx e hl' hl hi hf0 ht0' hft' hrel hn' hvc hv hn
+    have hpre : fnormKids pre = true := by rw [hl] at hn; exact fnormKids_append_left hn
+    rw [outer_flat S Slice.empty ty level' f0 t0' e L' idx f t' hd']
+    have hL := (LeftRel.flat hp' hp hd' hd ha htk).append_pre pre hpre
+    have hR := hrel.append_pre pre hpre
+    rw [← hl', ← hl, ← hf0] at hL
+    rw [← hl', ← hl, ← hf0, ← ht0'] at hR
+    exact ⟨_, atLevel_undo_emptyG S ty level' level f0 t0' e hL hR hn' hvc hv hn⟩
+  | @skip n L' O f h0 hle _ ih =>
+    intro ty pre level' level f0 t0' t' idx e hl' hl hi hf0 ht0' hft' hrel hn' hvc hv hn
+    have hrel2 := (hrel.congr_right (splitRight_skip n O f h0 hle)).congr_left
+      (splitRight_skip n L' t' (by omega) (by omega))
+    obtain ⟨X, hX⟩ := ih ty (pre ++ [n]) level' level f0 t0' (t' - n.size) (idx + 1) e
+      (by simp [hl']) (by simp [hl]) (by simp [hi]) (by rw [fsize_append]; simp; omega)
+      (by rw [fsize_append]; simp; omega) (by omega) hrel2 hn' hvc hv hn
+    unfold outer
+    rw [if_neg h0, if_pos hle]
+    exact ⟨X, hX⟩
+  | @elem tyL aL mL k' k L' O f h0 hlt' hlt hrelk ih =>
+    intro ty pre level' level f0 t0' t' idx e hl' hl hi hf0 ht0' hft' hrel hn' hvc hv hn
+    have hpre : fnormKids pre = true := by rw [hl] at hn; exact fnormKids_append_left hn
+    have hL := (LeftRel.elem (ty := tyL) (a := aL) (m := mL) (L' := L') (O := O) h0 hlt' hlt hrelk).append_pre
+      pre hpre
+    have hR := hrel.append_pre pre hpre
+    rw [← hl', ← hl, ← hf0] at hL
+    rw [← hl', ← hl, ← hf0, ← ht0'] at hR
+    unfold outer
+    rw [if_neg h0, if_neg (by simp; omega)]
+    simp only [Node.size_elem]
+    by_cases hcond : (decide (e ≠ 0) && decide (t' < 2 + fsize k')) = true
+    · rw [if_pos hcond]
+      simp only [Bool.and_eq_true, decide_eq_true_eq] at hcond
+      obtain ⟨he0, hin'⟩ := hcond
+      subst hl; subst hl'
+      obtain ⟨hvc', hvk, hnk⟩ := child_facts hv hn
+      have hnk' := fnorm_child hn'
+      obtain ⟨tyR, aR, mR, kR, iR, hsr, _, hrel'⟩ :=
+        hrel.deep_inv (splitRight_elem tyL aL mL k O f h0 hlt)
+      rw [splitRight_elem tyL aL mL k' L' t' (by omega) hin'] at hsr
+      simp at hsr
+      obtain ⟨⟨rfl, rfl, rfl, rfl⟩, rfl, _⟩ := hsr
+      obtain ⟨X, hX⟩ := ih tyL [] k' k (f - 1) (t' - 1) (t' - 1) 0 (e - 1) (by simp)
+        (by simp) (by simp) (by simp) (by simp) (by omega) hrel' hnk' hvc' hvk hnk
+      rw [hX]
+      exact ⟨_, rfl⟩
+    · rw [if_neg hcond]
+      exact ⟨_, atLevel_undo_emptyG S ty level' level f0 t0' e hL hR hn' hvc hv hn⟩
+
+/-! ### `replaceKids` of the inverse -/
+
+/-- **the inverse replace succeeds**, given the two relations between the new child list `K'` and
+    the valid, normal-form old child list `K`: the slice cut from `f … t` of `K` can be put over
+    `f … t'` of `K'`. -/
+theorem replaceKids_undoG (S : Schema) (ty : TypeId) (K K' : List Node) (f t t' : Nat) (old : Slice)
+    (hvc : S.validContent ty K = true) (hv : S.checkKids K = true) (hn : fnorm K = true)
+    (hn' : fnorm K' = true) (hft : f ≤ t) (ht : t ≤ fsize K) (hft' : f ≤ t')
+    (hs : sliceKids K f t = .ok old) (hL : LeftRel K' K f) (hR : RightRel S K' t' K t) :
+    ∃ X, replaceKids S ty K' f t' old = .ok X := by
+  have hdf := hL.depth
+  have hdt := hR.depth
+  have hwf := (sliceKids_norm K f t old hn hs).2
+  unfold replaceKids
+  rw [if_neg (by simp [inRange, hL.le.1, hR.le.1]; omega)]
+  simp only []
+  by_cases he : f = t
+  · subst he
+    simp [sliceKids] at hs; subst hs
+    rw [if_neg (by simp [Slice.empty]), if_neg (by simp [Slice.empty, hdf, hdt]),
+      if_neg (by simp [hwf])]
+    exact outer_undo_emptyG S hL ty [] K' K f t' t' 0 _ rfl rfl rfl (by simp) (by simp) hft' hR
+      hn' hvc hv hn
+  · have hlt : f < t := by omega
+    have hs' := hs
+    unfold sliceKids at hs'
+    rw [if_neg he] at hs'
+    split at hs'
+    · simp at hs'
+    · have hspec := sliceScan_spec K K f t f t [] old (by simp) (by simp) (by simp) hlt ht hs'
+      obtain ⟨sh, h1, h2, _, _⟩ := hspec.opens
+      rw [if_neg (by omega), if_neg (by omega), if_neg (by simp [hwf])]
+      exact outer_undoG S old hL ty [] K' K f t t' t t' 0 _ rfl rfl rfl (by simp) (by simp) (by simp)
+        hlt ht hft' hs' hs' hR (by omega) hn' hvc hv hn
+
 end PM
